@@ -125,11 +125,11 @@ func (e *kvElection) handleWatchEvent(entry Entry) {
 	if entry == nil {
 		log := e.getLogger()
 		log.Debug("watch_event_key_deleted",
-			append(e.logWithContext(e.ctx),
+			append(e.logWithContext(e.electionContext()),
 				zap.String("key", e.key),
 			)...,
 		)
-		go e.attemptAcquireWithRetry(e.ctx)
+		go e.attemptAcquireWithRetry(e.electionContext())
 		return
 	}
 
@@ -137,11 +137,11 @@ func (e *kvElection) handleWatchEvent(entry Entry) {
 	if len(valueBytes) == 0 {
 		log := e.getLogger()
 		log.Debug("watch_event_key_empty",
-			append(e.logWithContext(e.ctx),
+			append(e.logWithContext(e.electionContext()),
 				zap.String("key", e.key),
 			)...,
 		)
-		go e.attemptAcquireWithRetry(e.ctx)
+		go e.attemptAcquireWithRetry(e.electionContext())
 		return
 	}
 
@@ -160,7 +160,7 @@ func (e *kvElection) handleWatchEvent(entry Entry) {
 		if newLeaderID != e.cfg.InstanceID && entry.Revision() > e.revision.Load() {
 			log := e.getLogger()
 			log.Warn("leadership_lost_via_watcher",
-				append(e.logWithContext(e.ctx),
+				append(e.logWithContext(e.electionContext()),
 					zap.String("new_leader_id", newLeaderID),
 					zap.Uint64("revision", entry.Revision()),
 				)...,
@@ -171,7 +171,7 @@ func (e *kvElection) handleWatchEvent(entry Entry) {
 				e.mu.RUnlock()
 				if onDemote != nil {
 					log.Info("leader_demoted",
-						append(e.logWithContext(e.ctx),
+						append(e.logWithContext(e.electionContext()),
 							zap.String("reason", "leadership_lost_via_watcher"),
 						)...,
 					)
@@ -186,7 +186,7 @@ func (e *kvElection) handleWatchEvent(entry Entry) {
 	if currentLeaderID != newLeaderID {
 		log := e.getLogger()
 		log.Info("leader_changed",
-			append(e.logWithContext(e.ctx),
+			append(e.logWithContext(e.electionContext()),
 				zap.String("old_leader_id", currentLeaderID),
 				zap.String("new_leader_id", newLeaderID),
 				zap.Uint64("revision", entry.Revision()),
@@ -201,7 +201,7 @@ func (e *kvElection) handleWatchEvent(entry Entry) {
 	if e.cfg.AllowPriorityTakeover && e.cfg.Priority > payload.Priority {
 		log := e.getLogger()
 		log.Info("priority_takeover_opportunity",
-			append(e.logWithContext(e.ctx),
+			append(e.logWithContext(e.electionContext()),
 				zap.String("current_leader", currentLeaderID),
 				zap.Int("current_priority", payload.Priority),
 				zap.Int("our_priority", e.cfg.Priority),
@@ -215,7 +215,7 @@ func (e *kvElection) handleWatchEvent(entry Entry) {
 			if err := e.attemptAcquire(); err != nil {
 				// Takeover failed - stay as follower
 				log.Debug("priority_takeover_failed",
-					append(e.logWithContext(e.ctx),
+					append(e.logWithContext(e.electionContext()),
 						zap.Error(err),
 					)...,
 				)
